@@ -9,7 +9,7 @@
    exclude x (for exact solvers: every x; for a solver sound up to thin regions: every x outside them).
    "Exact where all intermediate values are exactly representable" is this theorem over Qc; the "up to rounding"
    clause for inexact f64 products (hard sigmoid slope 1/6, real network weights) is measured by the runner, not proved. *)
-From AT Require Import Num Vec Aff PTree Cells Abs Cache Elim ElimEval WfC Arch Net NetProofs NetExample.
+From AT Require Import Num Vec Aff PTree Cells Abs Cache Elim ElimEval ElimCache ElimEff WfC History EffHistory ElimCount ElimCountNet Arch Net NetProofs NetExample NetCount NetCountEx.
 
 (* with an arbitrary precondition tree: defined exactly where the precondition is, and then equal to the network *)
 Theorem C01_distill_faithful : forall os tol s n d0 dout pre ls x,
@@ -72,3 +72,135 @@ Print Assumptions C01_accepted_architecture_distills.
 Print Assumptions C01_distilled_split.
 Print Assumptions C01_exact_oracle_exists.
 Print Assumptions C01_nonvacuous.
+
+(* ================================================================ C01 x C06: the counting sentence for networks as distilled
+   by the builder model (Distill/NetCount.v).  For head-free layer lists (Linear / ReLU / LeakyReLU / HardTanh / HardSigmoid;
+   Argmax / ClassChar compose with pruning on the fly and are not operations of a C06 pipeline) the builder loop
+   distill_from IS a pipeline of Pwl/EffHistory.v: OApply a per Linear, OCompose false (schema tree); OElim per activation
+   (net_ops, oracle os j during layer j), all schema trees total, the identity terminal a legal start.  The reference
+   distill_unpruned is the same loop without infeasible_elimination (= run of strip (net_ops ..)); its erasure is the
+   un-pruned reference tree Arch.distill_ref, its terminal regions leaf_regions [] U are the activation regions.
+   Oracle hypothesis in the form of Pwl/ElimCountNet.v: exact_hist tol t (net_ops ..) = every elimination's oracle is exact
+   on the path polytopes of the tree it is applied to; implied by oracles that are exact everywhere (C01_distilled_exact_oracles),
+   decided by running the pipeline for the certified solver oracle lp_oracle (C01_lp_oracle_decides). *)
+Theorem C01_distilled_is_pipeline : forall os tol s n dout ls,
+  head_free ls = true -> layers_out_dim n ls = Some dout -> Forall layer_wf ls ->
+  (exists r U, distill os tol s n ls = Some r /\ run tol (id_tree n) (net_ops os s 0 n ls) = HOk r /\
+               distill_unpruned s n ls = Some U /\ run tol (id_tree n) (strip (net_ops os s 0 n ls)) = HOk U) /\
+  (forall ox, In ox (net_ops os s 0 n ls) -> eff_op (snd ox)) /\ pinv tol (id_tree n).
+Proof. exact distilled_is_pipeline. Qed.
+(* the same from any well-formed precondition tree, layer counter j *)
+Theorem C01_distilled_from_is_pipeline : forall os tol s n ls j d dout t,
+  head_free ls = true -> layers_out_dim d ls = Some dout -> Forall layer_wf ls -> cwft n d t ->
+  exists r U, distill_from os tol s j d t ls = Some r /\ run tol t (net_ops os s j d ls) = HOk r /\ cwft n dout r /\
+              distill_unpruned_from s d t ls = Some U /\ run tol t (strip (net_ops os s j d ls)) = HOk U /\ cwft n dout U.
+Proof. exact distill_from_is_run. Qed.
+Theorem C01_distilled_ops_total : forall os s ls j d, head_free ls = true ->
+  forall ox, In ox (net_ops os s j d ls) -> eff_op (snd ox).
+Proof. exact net_ops_eff. Qed.
+Theorem C01_distilled_reference_is_unpruned_tree : forall s n ls dout U,
+  head_free ls = true -> layers_out_dim n ls = Some dout ->
+  distill_unpruned s n ls = Some U -> erase U = distill_ref s n ls.
+Proof. exact distill_unpruned_is_ref. Qed.
+
+(* terminals of distill = terminals of the reference selected by a mask; every non-empty activation region is kept; any tol >= 0 *)
+Theorem C01_distilled_count_mask : forall os tol s n ls dout r U, 0 <= tol ->
+  head_free ls = true -> layers_out_dim n ls = Some dout -> Forall layer_wf ls ->
+  exact_hist tol (id_tree n) (net_ops os s 0 n ls) ->
+  distill os tol s n ls = Some r -> distill_unpruned s n ls = Some U ->
+  exists m : list bool,
+    length m = length (leaf_regions [] U) /\
+    leaf_funcs r = select m (leaf_funcs U) /\
+    Forall2 (fun (b : bool) (Rg : rows) => ne Rg -> b = true) m (leaf_regions [] U).
+Proof. exact distilled_count_mask. Qed.
+(* #full-dimensional activation regions <= #terminals *)
+Theorem C01_distilled_count_lower : forall os tol s n ls dout r U (full : list bool), 0 <= tol ->
+  head_free ls = true -> layers_out_dim n ls = Some dout -> Forall layer_wf ls ->
+  exact_hist tol (id_tree n) (net_ops os s 0 n ls) ->
+  distill os tol s n ls = Some r -> distill_unpruned s n ls = Some U ->
+  Forall2 (fun (b : bool) (Rg : rows) => b = true -> interior Rg) full (leaf_regions [] U) ->
+  (count full <= nleaves r)%nat.
+Proof. exact distilled_count_lower. Qed.
+(* tol = 0, the list ends with an activation layer: #terminals = #non-empty closed activation regions *)
+Theorem C01_distilled_count_exact_tol0 : forall os s n ls l dout r U (closed : list bool),
+  head_free (ls ++ [l]) = true -> (forall a, l <> LLinear a) ->
+  layers_out_dim n (ls ++ [l]) = Some dout -> Forall layer_wf (ls ++ [l]) ->
+  exact_hist 0 (id_tree n) (net_ops os s 0 n (ls ++ [l])) ->
+  distill os 0 s n (ls ++ [l]) = Some r -> distill_unpruned s n (ls ++ [l]) = Some U ->
+  Forall2 (fun (b : bool) (Rg : rows) => b = true <-> ne Rg) closed (leaf_regions [] U) ->
+  nleaves r = count closed.
+Proof. exact distilled_count_exact_tol0. Qed.
+(* the three sentences from any legal precondition tree (pinv: e.g. a fresh total tree, or the result of such a pipeline) *)
+Theorem C01_distilled_from_count_mask : forall os tol s n ls j d dout t r U, 0 <= tol ->
+  head_free ls = true -> layers_out_dim d ls = Some dout -> Forall layer_wf ls -> cwft n d t -> pinv tol t ->
+  exact_hist tol t (net_ops os s j d ls) ->
+  distill_from os tol s j d t ls = Some r -> distill_unpruned_from s d t ls = Some U ->
+  exists m : list bool,
+    length m = length (leaf_regions [] U) /\
+    leaf_funcs r = select m (leaf_funcs U) /\
+    Forall2 (fun (b : bool) (Rg : rows) => ne Rg -> b = true) m (leaf_regions [] U).
+Proof. exact distilled_from_count_mask. Qed.
+Theorem C01_distilled_from_count_lower : forall os tol s n ls j d dout t r U (full : list bool), 0 <= tol ->
+  head_free ls = true -> layers_out_dim d ls = Some dout -> Forall layer_wf ls -> cwft n d t -> pinv tol t ->
+  exact_hist tol t (net_ops os s j d ls) ->
+  distill_from os tol s j d t ls = Some r -> distill_unpruned_from s d t ls = Some U ->
+  Forall2 (fun (b : bool) (Rg : rows) => b = true -> interior Rg) full (leaf_regions [] U) ->
+  (count full <= nleaves r)%nat.
+Proof. exact distilled_from_count_lower. Qed.
+Theorem C01_distilled_from_count_exact_tol0 : forall os s n ls l j d dout t r U (closed : list bool),
+  head_free (ls ++ [l]) = true -> (forall a, l <> LLinear a) ->
+  layers_out_dim d (ls ++ [l]) = Some dout -> Forall layer_wf (ls ++ [l]) -> cwft n d t -> pinv 0 t ->
+  exact_hist 0 t (net_ops os s j d (ls ++ [l])) ->
+  distill_from os 0 s j d t (ls ++ [l]) = Some r -> distill_unpruned_from s d t (ls ++ [l]) = Some U ->
+  Forall2 (fun (b : bool) (Rg : rows) => b = true <-> ne Rg) closed (leaf_regions [] U) ->
+  nleaves r = count closed.
+Proof. exact distilled_from_count_exact_tol0. Qed.
+
+(* the oracle hypothesis: implied by oracles that are exact everywhere; decided for the certified solver oracle *)
+Theorem C01_distilled_exact_oracles : forall os tol s ls j d t,
+  (forall k, oexact (os k) /\ mir_sound (os k) tol) -> exact_hist tol t (net_ops os s j d ls).
+Proof. exact net_ops_exact_hist. Qed.
+Theorem C01_lp_oracle_never_lies : forall n q,
+  match lpo_answer n q with LInf => ~ ne q | LUnb => ne q | LOpt w => in_rows q w | LErr => True end.
+Proof. exact lpo_answer_sound. Qed.
+Theorem C01_lp_oracle_decides : forall n tol s ls j d t,
+  exact_histb n tol t (net_ops (fun _ => lp_oracle n) s j d ls) = true ->
+  exact_hist tol t (net_ops (fun _ => lp_oracle n) s j d ls).
+Proof. exact lp_net_exact_hist. Qed.
+
+(* non-vacuity: x |-> relu (relu x - 1) on R^1 (Linear, ReLU, Linear, ReLU), certified solver oracle, tol = 0:
+   four activation patterns, one dead (x <= 0 and 0 <= -1), three terminals *)
+Example C01_distilled_count_nonvacuous :
+  (exists r U : ctree,
+    (head_free dn_layers = true /\ layers_out_dim 1 dn_layers = Some 1%nat /\ Forall layer_wf dn_layers /\
+     exact_hist 0 (id_tree 1) (net_ops dn_os 0 0 1 dn_layers) /\
+     distill dn_os 0 0 1 dn_layers = Some r /\ distill_unpruned 0 1 dn_layers = Some U) /\
+    length (leaf_regions [] U) = 4%nat /\ nleaves r = 3%nat /\ count dn_closed = 3%nat /\
+    leaf_funcs r = select dn_closed (leaf_funcs U) /\
+    nth 2 (leaf_regions [] U) [] = dn_dead /\
+    Forall2 (fun (b : bool) (Rg : rows) => b = true <-> ne Rg) dn_closed (leaf_regions [] U) /\
+    Forall2 (fun (b : bool) (Rg : rows) => b = true -> interior Rg) dn_closed (leaf_regions [] U)) /\
+  (forall r U, distill dn_os 0 0 1 dn_layers = Some r -> distill_unpruned 0 1 dn_layers = Some U ->
+    run 0 (id_tree 1) (net_ops dn_os 0 0 1 dn_layers) = HOk r /\
+    (exists m : list bool, length m = length (leaf_regions [] U) /\ leaf_funcs r = select m (leaf_funcs U) /\
+       Forall2 (fun (b : bool) (Rg : rows) => ne Rg -> b = true) m (leaf_regions [] U)) /\
+    (forall full, Forall2 (fun (b : bool) (Rg : rows) => b = true -> interior Rg) full (leaf_regions [] U) ->
+       (count full <= nleaves r)%nat) /\
+    (forall closed, Forall2 (fun (b : bool) (Rg : rows) => b = true <-> ne Rg) closed (leaf_regions [] U) ->
+       nleaves r = count closed)).
+Proof. exact (conj dn_net dn_theorems). Qed.
+
+Print Assumptions C01_distilled_is_pipeline.
+Print Assumptions C01_distilled_from_is_pipeline.
+Print Assumptions C01_distilled_ops_total.
+Print Assumptions C01_distilled_reference_is_unpruned_tree.
+Print Assumptions C01_distilled_count_mask.
+Print Assumptions C01_distilled_count_lower.
+Print Assumptions C01_distilled_count_exact_tol0.
+Print Assumptions C01_distilled_from_count_mask.
+Print Assumptions C01_distilled_from_count_lower.
+Print Assumptions C01_distilled_from_count_exact_tol0.
+Print Assumptions C01_distilled_exact_oracles.
+Print Assumptions C01_lp_oracle_never_lies.
+Print Assumptions C01_lp_oracle_decides.
+Print Assumptions C01_distilled_count_nonvacuous.
